@@ -128,9 +128,7 @@ def _run(cfg):
         P["hmax"] = K.dfloor(x)
     algo = A.build(name, part, dom, n, prm)
     if name == "DOO":
-        from PyXAB.algos.DOO import DOO_node
-        r0 = DOO_node(0, 1, None, [[0, 1]]).get_reward()
-        P["r0"] = code_reward(r0, RU)
+        P["r0"] = R.NINF          # an unevaluated DOO cell has no reward: -inf (the specification's value, not read from the library)
     rec = R.SessionRec(algo, P, extractor=extractor(name, RU), tid=cfg["id"], call_timeout=cfg.get("timeout", 30), mk_fields=True)
     rnd = random.Random(cfg["seed"] + 3)
     t0 = cfg.get("t0", 1)
